@@ -34,13 +34,14 @@ def variant(case, v):
     return c
 
 
-class C05(Prop):
+class C05(netlib.Guarded, Prop):
     ID = "C05"
     PROPS_FILE = "Props/C05.v"
     CORR_MODULE = "Net.Corr"
     LEVEL = "proof"
     MAX_WORKERS = 6
-    CASE_TIMEOUT = 240
+    CASE_TIMEOUT = netlib.GUARD_CASE_TIMEOUT      # outer guard only: a hang verdict is structural (see netlib)
+    SHARD_TIMEOUT = netlib.GUARD_SHARD_TIMEOUT
     LEVEL_TEXT = (
         "Theorems (Coq, closed): (a) for networks of round machines (every step built on _get_inputs: Transformer, "
         "ConditionalStep) any two maximal executions from the same state — any two interleavings — end in the same "
@@ -112,10 +113,15 @@ class C05(Prop):
         return {"runs": runs}
 
     def oracle(self, c, o):
-        if "crash" in o or "hang" in o:
-            return ("hang", f"crashed or hung: {str(o)[:300]}")
+        o = self.resolve(c, o)
+        if o is None:
+            return None                     # the wall-clock guard expired twice: no verdict
+        if "crash" in o:
+            return ("crash", f"the harness could not contain the run: {str(o)[:300]}")
         r0 = o["runs"][0]
         for k, r in enumerate(o["runs"]):
+            if r["ret"] == "hang":
+                return ("hang", f"variant {k}: run() never returned although nothing could move any more")
             if r["ret"] != "ok":
                 return ("run-failed", f"variant {k} ended with {r['ret']} although no failure was injected")
             for p in c["outputs"]:
@@ -130,7 +136,8 @@ class C05(Prop):
         return None
 
     def coq_case(self, c, o):
-        if "crash" in o or "hang" in o or not netlib.tg_only(c):
+        o = self.resolve(c, o)
+        if o is None or "crash" in o or not netlib.tg_only(c):
             return None
         for r in o["runs"]:
             for toks in r["out"].values():
@@ -162,6 +169,10 @@ class C05(Prop):
             d = copy.deepcopy(c)
             d["inputs"] = {p: v[:-1] if len(v) > 1 else v for p, v in d["inputs"].items()}
             yield d
+
+
+    def extra_samples(self):
+        return [self.guard_sample()]
 
 
 PROP = C05()
